@@ -142,6 +142,18 @@ theorem applyEtag_cases (r c : Msg) :
     · simp [hab]
     · simp [hab, restartTakesNewOptions]
 
+/-- the message the payload is appended to: the held one (compatible ETags, not a first block that restarts), or a fresh
+    one made from the block (ETag change; first block once F10e is in the tree) -/
+theorem blockBase_cases (r c : Msg) (off : Nat) :
+    (blockBase r c off = c ∧ (r.etag = c.etag ∨ r.etag = none ∨ c.etag = none)) ∨
+    (blockBase r c off = { r with body := [], tok := c.tok, deadline := c.deadline }) := by
+  unfold blockBase
+  split
+  · exact Or.inr rfl
+  · rcases applyEtag_cases r c with ⟨h, hc⟩ | ⟨h, _⟩
+    · exact Or.inl ⟨h, hc⟩
+    · exact Or.inr h
+
 /-- what an application supplied for transfer under a token and an ETag -/
 structure Supplied where
   body : Bytes
@@ -180,12 +192,12 @@ theorem matches_unique {R : Reg} (hd : Discipline R) {tok : Nat} {r c : Msg} {s 
 /-- `absorb` keeps the invariant, and a block that ends the body completes it -/
 theorem absorb_ok {R : Reg} (hd : Discipline R) {tok off : Nat} {r c0 : Msg} {s : Supplied}
     (hc : HeldOK R tok c0) (hr : Matches R tok r s)
-    (hs : off = (applyEtag r c0).body.length → SliceAt s.body off r.body) :
+    (hs : off = (blockBase r c0 off).body.length → SliceAt s.body off r.body) :
     Matches R tok (absorb r c0 off).1 s ∧ (absorb r c0 off).1.body <+: s.body ∧
       ((absorb r c0 off).2 = true → off + r.body.length = s.body.length → (absorb r c0 off).1.body = s.body) := by
   obtain ⟨s', hm', hp'⟩ := hc
-  have key : Matches R tok (applyEtag r c0) s ∧ (applyEtag r c0).body <+: s.body := by
-    rcases applyEtag_cases r c0 with ⟨he, hcase⟩ | ⟨he, _, _, _⟩
+  have key : Matches R tok (blockBase r c0 off) s ∧ (blockBase r c0 off).body <+: s.body := by
+    rcases blockBase_cases r c0 off with ⟨he, hcase⟩ | he
     · have : s = s' := matches_unique hd hr hm' hcase
       subst this
       rw [he]; exact ⟨hm', hp'⟩
@@ -226,8 +238,8 @@ theorem live_some {slot : Option Entry} {e : Entry} {now : Int} (h : live slot n
     · cases h
     · exact h
 
-theorem applyEtag_fresh (r : Msg) : (applyEtag r { r with body := [] }).body = [] := by
-  rcases applyEtag_cases r { r with body := [] } with ⟨h, _⟩ | ⟨h, _⟩ <;> rw [h]
+theorem blockBase_fresh (r : Msg) (off : Nat) : (blockBase r { r with body := [] } off).body = [] := by
+  rcases blockBase_cases r { r with body := [] } off with ⟨h, _⟩ | h <;> rw [h]
 
 theorem removeBlockSize_fields (c : Msg) (bt : BT) :
     (c.removeBlockSize bt).etag = c.etag ∧ (c.removeBlockSize bt).body = c.body ∧ (c.removeBlockSize bt).other = c.other ∧
@@ -286,7 +298,7 @@ theorem processReceived_inv {R : Reg} (hd : Discipline R) (cfg : Cfg) (sl : Slot
             have hfresh : HeldOK R r.tok { r with body := [] } := ⟨s, ⟨hm.1, hm.2.1, hm.2.2.1, hm.2.2.2⟩, List.nil_prefix⟩
             have hab := absorb_ok hd (off := num * sizeN (getSzx szx0 maxSzx)) hfresh hm (by
               intro hoff
-              rw [applyEtag_fresh] at hoff
+              rw [blockBase_fresh] at hoff
               have hp : 0 < sizeN (getSzx szx0 maxSzx) := sizeN_pos (Nat.le_trans (getSzx_le_left _ _) hs7)
               have hn0 : num = 0 := by
                 rcases Nat.eq_zero_or_pos num with h | h
@@ -346,8 +358,8 @@ def isStartBlock (r : Msg) (bt : BT) : Nat :=
 theorem absorb_pot (r c0 : Msg) (off : Nat) :
     ((absorb r c0 off).2 = true → c0.body ≠ [] ∨ off = 0) ∧
     ((absorb r c0 off).1.body ≠ [] → c0.body ≠ [] ∨ off = 0) := by
-  have hb : (applyEtag r c0).body = c0.body ∨ (applyEtag r c0).body = [] := by
-    rcases applyEtag_cases r c0 with ⟨h, _⟩ | ⟨h, _⟩ <;> rw [h] <;> simp
+  have hb : (blockBase r c0 off).body = c0.body ∨ (blockBase r c0 off).body = [] := by
+    rcases blockBase_cases r c0 off with ⟨h, _⟩ | h <;> rw [h] <;> simp
   unfold absorb
   simp only []
   split
@@ -592,11 +604,11 @@ theorem handleS_inv {R : Reg} (hd : Discipline R) (cfg : Cfg) (sl : Slots) (now 
 
 /-! ### the sender's blocks are aligned slices -/
 
-theorem sendOff_aligned (bt : BT) {szx : Nat} (num ms : Nat) (h : szx ≤ 7) :
-    sendOff bt szx num (bufLen szx ms) / sizeN szx * sizeN szx = sendOff bt szx num (bufLen szx ms) := by
+theorem sendOff_aligned (skip : Bool) (bt : BT) {szx : Nat} (num ms : Nat) (h : szx ≤ 7) :
+    sendOffWith skip bt szx num (bufLen szx ms) / sizeN szx * sizeN szx = sendOffWith skip bt szx num (bufLen szx ms) := by
   obtain ⟨k, hk⟩ := bufLen_mul ms h
   have hp := sizeN_pos h
-  unfold sendOff
+  unfold sendOffWith
   rw [hk]
   split
   · have : num * sizeN szx + k * sizeN szx = (num + k) * sizeN szx := by rw [Nat.add_mul]
@@ -621,20 +633,20 @@ theorem setBlock_block (m : Msg) (bt : BT) (v : Nat) : (m.setBlock bt v).block b
 
 /-- everything `createSendingMessage` can emit for a message is an aligned slice of that message's body, flagged
     `more` exactly when it does not end the body, with the message's code, token, ETag and other options -/
-theorem createSending_slice {sm : Msg} {mx ms blk : Nat} {m : Msg} {more : Bool}
-    (hms : mx < 7 ∨ 1024 ≤ ms) (h : createSending sm mx ms blk = some (m, more)) :
+theorem createSendingWith_slice {skip : Bool} {sm : Msg} {mx ms blk : Nat} {m : Msg} {more : Bool}
+    (hms : mx < 7 ∨ 1024 ≤ ms) (h : createSendingWith skip sm mx ms blk = some (m, more)) :
     ∃ v szx num, m.block (sendBT sm.code) = some v ∧ decodeBlock v = .ok (szx, num, more) ∧ szx ≤ mx ∧
       SliceAt sm.body (num * sizeN szx) m.body ∧ m.body.length ≤ bufLen szx ms ∧
       (more = false ↔ num * sizeN szx + m.body.length = sm.body.length) ∧
       m.code = sm.code ∧ m.tok = sm.tok ∧ m.etag = sm.etag ∧ m.other = sm.other := by
-  unfold createSending at h
+  unfold createSendingWith at h
   split at h
   · cases h
   · rename_i s0 n0 m0 hdec
     simp only [] at h
     have hs7 : getSzx s0 mx ≤ 7 := Nat.le_trans (getSzx_le_left _ _) (decode_szx_le hdec)
     obtain ⟨v, hm, hdv, hmore, hoff, _⟩ := createSendingAt_spec h
-    have hal := sendOff_aligned (sendBT sm.code) n0 ms hs7
+    have hal := sendOff_aligned skip (sendBT sm.code) n0 ms hs7
     have hpos : 0 < bufLen (getSzx s0 mx) ms := by
       apply bufLen_pos hs7
       by_cases h7 : getSzx s0 mx < 7
@@ -655,6 +667,14 @@ theorem createSending_slice {sm : Msg} {mx ms blk : Nat} {m : Msg} {more : Bool}
     · rw [hm]; cases hbt : sendBT sm.code <;> simp [Msg.setBlock, Msg.setSize]
 
 /-! ### endpoint level -/
+
+theorem createSending_slice {sm : Msg} {mx ms blk : Nat} {m : Msg} {more : Bool}
+    (hms : mx < 7 ∨ 1024 ≤ ms) (h : createSending sm mx ms blk = some (m, more)) :
+    ∃ v szx num, m.block (sendBT sm.code) = some v ∧ decodeBlock v = .ok (szx, num, more) ∧ szx ≤ mx ∧
+      SliceAt sm.body (num * sizeN szx) m.body ∧ m.body.length ≤ bufLen szx ms ∧
+      (more = false ↔ num * sizeN szx + m.body.length = sm.body.length) ∧
+      m.code = sm.code ∧ m.tok = sm.tok ∧ m.etag = sm.etag ∧ m.other = sm.other :=
+  createSendingWith_slice hms h
 
 theorem put_same (c : Cache) (k : Nat) (v : Option Entry) : (c.put k v) k = v := by simp [Cache.put]
 theorem put_other (c : Cache) {k k' : Nat} (v : Option Entry) (h : k' ≠ k) : (c.put k v) k' = c k' := by simp [Cache.put, h]
@@ -841,7 +861,7 @@ theorem fitSZX_le (r : Msg) (bt : BT) (mx : Nat) : fitSZX r bt mx ≤ mx := by
 theorem createSending_szx {sm : Msg} {mx ms blk s0 n0 : Nat} {m0 : Bool} {m : Msg} {more : Bool}
     (hdec : decodeBlock blk = .ok (s0, n0, m0)) (h : createSending sm mx ms blk = some (m, more)) :
     ∃ v num, m.block (sendBT sm.code) = some v ∧ decodeBlock v = .ok (min s0 mx, num, more) := by
-  unfold createSending at h
+  unfold createSending createSendingWith at h
   rw [hdec] at h
   simp only [] at h
   obtain ⟨v, hm, hdv, _⟩ := createSendingAt_spec h
@@ -872,8 +892,8 @@ theorem blockReply_szx {bt : BT} {sent : Option Msg} {tok szx num held : Nat} {m
 theorem absorb_restart {r c0 : Msg} {a b : Bytes} (hr : r.etag = some a) (hc : c0.etag = some b) (hab : a ≠ b) (off : Nat) :
     (absorb r c0 off).1.etag = some a ∧ (absorb r c0 off).1.other = r.other ∧ (absorb r c0 off).1.code = r.code ∧
     (absorb r c0 off).1.body = (if off = 0 then r.body else []) := by
-  have he : applyEtag r c0 = { r with body := [], tok := c0.tok, deadline := c0.deadline } := by
-    rcases applyEtag_cases r c0 with ⟨_, hcase⟩ | ⟨h, _⟩
+  have he : blockBase r c0 off = { r with body := [], tok := c0.tok, deadline := c0.deadline } := by
+    rcases blockBase_cases r c0 off with ⟨_, hcase⟩ | h
     · rw [hr, hc] at hcase
       rcases hcase with h | h | h
       · exact absurd (Option.some.inj h) hab
@@ -887,16 +907,24 @@ theorem absorb_restart {r c0 : Msg} {a b : Bytes} (hr : r.etag = some a) (hc : c
   · have : ¬ off = ([] : Bytes).length := by simpa using h0
     simp [h0, hr]
 
-/-- the same ETag (or none on both sides) keeps what is held -/
-theorem absorb_same {r c0 : Msg} (h : r.etag = c0.etag) (off : Nat) :
+/-- the same ETag (or none on both sides) keeps what is held, unless the block is a first block that restarts the transfer -/
+theorem absorb_same {r c0 : Msg} (h : r.etag = c0.etag) (off : Nat) (hnr : ¬ (block0Restarts = true ∧ off = 0)) :
     (absorb r c0 off).1.body = if off = c0.body.length then c0.body ++ r.body else c0.body := by
-  have he : applyEtag r c0 = c0 := by
+  have he : blockBase r c0 off = c0 := by
+    unfold blockBase
+    rw [if_neg hnr]
     rcases applyEtag_cases r c0 with ⟨h', _⟩ | ⟨_, hne, _⟩
     · exact h'
     · exact absurd h hne
   unfold absorb
   simp only [he]
   split <;> rfl
+
+/-- (F10e) a first block replaces whatever is held: afterwards exactly its payload is held, with its options, code and ETag -/
+theorem absorb_first_block (hfix : block0Restarts = true) (r c0 : Msg) :
+    (absorb r c0 0).1 = { r with tok := c0.tok, deadline := c0.deadline } ∧ (absorb r c0 0).2 = true := by
+  unfold absorb blockBase
+  simp [hfix]
 
 theorem live_expired (e : Entry) (now : Int) (h : now > e.validUntil) : live (some e) now = none := by
   simp [live, Entry.expired, h]
@@ -932,11 +960,10 @@ theorem postput_sendBT {c : Nat} (h : isPostPut c = true) : sendBT c = .b1 := by
 
 /-- O1: a POST/PUT sent block by block through `createSendingMessage` never produces block number 0:
     the "already sent" offset is added even for the first call (`startSendingMessage`, one-way `WriteMessage`). -/
-theorem createSending_block1_not_first {sm : Msg} {mx ms blk : Nat} {m : Msg} {more : Bool}
-    (hpp : isPostPut sm.code = true) (hms : mx < 7 ∨ 1024 ≤ ms) (h : createSending sm mx ms blk = some (m, more)) :
+theorem createSendingWith_block1_not_first {skip : Bool} (hskip : skip = true) {sm : Msg} {mx ms blk : Nat} {m : Msg} {more : Bool}
+    (hpp : isPostPut sm.code = true) (hms : mx < 7 ∨ 1024 ≤ ms) (h : createSendingWith skip sm mx ms blk = some (m, more)) :
     startOf m = 0 := by
-  have hskip : block1SkipsSent = true := rfl
-  unfold createSending at h
+  unfold createSendingWith at h
   split at h
   · cases h
   · rename_i s0 n0 m0 hdec
@@ -957,9 +984,9 @@ theorem createSending_block1_not_first {sm : Msg} {mx ms blk : Nat} {m : Msg} {m
       rcases Nat.eq_zero_or_pos k with h0 | h0
       · rw [h0] at hk; omega
       · exact h0
-    have hnum : 1 ≤ sendOff (sendBT sm.code) (getSzx s0 mx) n0 (bufLen (getSzx s0 mx) ms) / sizeN (getSzx s0 mx) := by
+    have hnum : 1 ≤ sendOffWith skip (sendBT sm.code) (getSzx s0 mx) n0 (bufLen (getSzx s0 mx) ms) / sizeN (getSzx s0 mx) := by
       rw [postput_sendBT hpp]
-      unfold sendOff
+      unfold sendOffWith
       simp only [hskip, beq_self_eq_true, Bool.and_self, if_true, hk]
       have : n0 * sizeN (getSzx s0 mx) + k * sizeN (getSzx s0 mx) = (n0 + k) * sizeN (getSzx s0 mx) := by rw [Nat.add_mul]
       rw [this, Nat.mul_div_cancel _ hsz]
@@ -971,8 +998,19 @@ theorem createSending_block1_not_first {sm : Msg} {mx ms blk : Nat} {m : Msg} {m
     unfold startOf
     rw [hcode, postput_dataBT hpp]
     simp only [isStartBlock, hblk, hdv]
-    have : ¬ sendOff (sendBT sm.code) (getSzx s0 mx) n0 (bufLen (getSzx s0 mx) ms) / sizeN (getSzx s0 mx) = 0 := by omega
+    have : ¬ sendOffWith skip (sendBT sm.code) (getSzx s0 mx) n0 (bufLen (getSzx s0 mx) ms) / sizeN (getSzx s0 mx) = 0 := by omega
     simp [this]
+
+theorem createSending_block1_not_first {sm : Msg} {mx ms blk : Nat} {m : Msg} {more : Bool}
+    (hpp : isPostPut sm.code = true) (hms : mx < 7 ∨ 1024 ≤ ms) (h : createSending sm mx ms blk = some (m, more)) :
+    startOf m = 0 :=
+  createSendingWith_block1_not_first (skip := block1SkipsSent) rfl hpp hms h
+
+/-- O1 proper: while `startSendingMessage` asks for the addend too, the first message of a one-way POST/PUT is not a first block -/
+theorem createSendingFirst_block1_not_first (hO1 : startSkipsSent = true) {sm : Msg} {mx ms blk : Nat} {m : Msg} {more : Bool}
+    (hpp : isPostPut sm.code = true) (hms : mx < 7 ∨ 1024 ≤ ms) (h : createSendingFirst sm mx ms blk = some (m, more)) :
+    startOf m = 0 :=
+  createSendingWith_block1_not_first hO1 hpp hms h
 
 /-- … so a receiver that is fed only such blocks — in any order, any number of times — never hands a body on. -/
 theorem no_first_block_no_delivery (app : App) (tok : Nat) (htok : tok ≠ 0) (ep : Endpoint) (as : List Arrival)
@@ -1020,11 +1058,11 @@ theorem bert_first_block_holds_everything (cfg : Cfg) (snd : Option Entry) (now 
   · simp only []
     exact List.take_of_length_le (Nat.le_of_lt h2)
   · intro blk n0 m0 hdec
-    unfold createSending
+    unfold createSending createSendingWith
     simp only [hdec, hszx]
     have hg : getSzx 7 7 = 7 := by decide
     have hskip : block1SkipsSent = true := rfl
-    unfold createSendingAt sendOff
+    unfold createSendingAt sendOffWith
     simp only [hg, postput_sendBT hpp, hskip, beq_self_eq_true, Bool.and_self, if_true]
     have : bufLen 7 cfg.maxSize > 0 ∧ n0 * sizeN 7 + bufLen 7 cfg.maxSize > r.body.length := by omega
     simp [this]
@@ -1061,9 +1099,9 @@ theorem goodMsg_of_no_block {R : Reg} {m : Msg} (h : ∀ bt, dataBT m.code = som
   rw [h bt hbt] at hb; cases hb
 
 /-- every block cut from a whole message is `GoodMsg` -/
-theorem createSending_good {R : Reg} {sm : Msg} {mx ms blk : Nat} {m : Msg} {more : Bool}
-    (hw : WholeMsg R sm) (hms : mx < 7 ∨ 1024 ≤ ms) (h : createSending sm mx ms blk = some (m, more)) : GoodMsg R m := by
-  obtain ⟨v, szx, num, hb, hdv, _, hsl, _, hmore, hcode, htok, hetag, hother⟩ := createSending_slice hms h
+theorem createSendingWith_good {R : Reg} {skip : Bool} {sm : Msg} {mx ms blk : Nat} {m : Msg} {more : Bool}
+    (hw : WholeMsg R sm) (hms : mx < 7 ∨ 1024 ≤ ms) (h : createSendingWith skip sm mx ms blk = some (m, more)) : GoodMsg R m := by
+  obtain ⟨v, szx, num, hb, hdv, _, hsl, _, hmore, hcode, htok, hetag, hother⟩ := createSendingWith_slice hms h
   intro bt hbt blk' szx' num' more' hb' hdec'
   rw [hcode] at hbt
   have := dataBT_sendBT hbt
@@ -1077,9 +1115,13 @@ theorem createSending_good {R : Reg} {sm : Msg} {mx ms blk : Nat} {m : Msg} {mor
   refine ⟨⟨sm.body, sm.other, sm.code⟩, ⟨?_, hother, hcode, rfl⟩, hsl, fun hm => hmore.mp hm⟩
   rw [htok, hetag]; exact hw.1
 
+theorem createSending_good {R : Reg} {sm : Msg} {mx ms blk : Nat} {m : Msg} {more : Bool}
+    (hw : WholeMsg R sm) (hms : mx < 7 ∨ 1024 ≤ ms) (h : createSending sm mx ms blk = some (m, more)) : GoodMsg R m :=
+  createSendingWith_good hw hms h
+
 theorem createSending_code {sm : Msg} {mx ms blk : Nat} {m : Msg} {more : Bool}
     (h : createSending sm mx ms blk = some (m, more)) : m.code = sm.code ∧ m.tok = sm.tok := by
-  unfold createSending at h
+  unfold createSending createSendingWith at h
   split at h
   · cases h
   · simp only [] at h
@@ -1142,7 +1184,7 @@ theorem startSendingS_ok {R : Reg} {P : Nat → Prop} {cfg : Cfg} {snd : Option 
               subst h1 h2
               refine ⟨storeIfAbsent_ok hsnd hwm, ?_⟩
               intro m' hm'; injection hm' with hm'; subst hm'
-              exact createSending_good hwm.1 hms hcs
+              exact createSendingWith_good hwm.1 hms hcs
           simp only [] at h
           split at h <;> exact fin _ h
 
@@ -1916,12 +1958,12 @@ theorem sender_round (cfg : Cfg) (r : Msg) (exp now : Int) (rcv : Option Entry) 
     have : r.code = codePOST ∨ r.code = codePUT := by simpa [isPostPut] using hpp
     rcases this with h | h <;> rw [h] <;> decide
   have hskip : block1SkipsSent = true := rfl
-  have hoff : sendOff .b1 cfg.szx k (sizeN cfg.szx) = (k + 1) * sizeN cfg.szx := by
-    simp [sendOff, hskip, Nat.add_mul]
+  have hoff : sendOffWith block1SkipsSent .b1 cfg.szx k (sizeN cfg.szx) = (k + 1) * sizeN cfg.szx := by
+    simp [sendOffWith, hskip, Nat.add_mul]
   have hcs : createSending r cfg.szx cfg.maxSize (blkVal cfg.szx k true) =
       some (uploadBlock r cfg.szx cfg.maxSize (k + 1),
         decide ((k + 1) * sizeN cfg.szx + ((r.body.drop ((k + 1) * sizeN cfg.szx)).take (sizeN cfg.szx)).length ≠ r.body.length)) := by
-    unfold createSending
+    unfold createSending createSendingWith
     rw [decode_blkVal true hs7 (by omega)]
     simp only [getSzx_eq_min, Nat.min_self, hsend, hbuf, hoff]
     unfold createSendingAt
@@ -1970,7 +2012,7 @@ theorem uploadBlock_fields (r : Msg) (s ms j : Nat) :
 theorem receiver_round (cfg : Cfg) (r : Msg) (ent : Entry) (now : Int) (app : App) (ms k : Nat)
     (hs : cfg.szx < 7) (hpp : isPostPut r.code = true) (htok : r.tok ≠ 0) (hlive : now ≤ ent.validUntil)
     (hheld : ent.msg.body = r.body.take (k * sizeN cfg.szx)) (hk : k * sizeN cfg.szx ≤ r.body.length)
-    (hetag : ent.msg.etag = r.etag) (hnum : k < 2 ^ 20) :
+    (hetag : ent.msg.etag = r.etag) (hnum : k < 2 ^ 20) (hk0 : 0 < k) :
     ((k + 1) * sizeN cfg.szx < r.body.length →
       handleS cfg ⟨none, some ent⟩ now (uploadBlock r cfg.szx ms k) app =
         (⟨none, some ⟨{ ent.msg with body := r.body.take ((k + 1) * sizeN cfg.szx) }, ent.validUntil⟩⟩,
@@ -2006,7 +2048,11 @@ theorem receiver_round (cfg : Cfg) (r : Msg) (ent : Entry) (now : Int) (app : Ap
   have hfit : fitSZX (uploadBlock r cfg.szx ms k) .b1 cfg.szx = cfg.szx := by
     rw [fitSZX_some (v := blkVal cfg.szx k _) cfg.szx rfl hdecode]; omega
   have hlv : live (some ent) now = some ent := live_fresh _ _ hlive
-  have hap : applyEtag (uploadBlock r cfg.szx ms k) ent.msg = ent.msg := by
+  have hap : blockBase (uploadBlock r cfg.szx ms k) ent.msg (k * sizeN cfg.szx) = ent.msg := by
+    have hne0 : ¬ (block0Restarts = true ∧ k * sizeN cfg.szx = 0) := by
+      intro h; have := Nat.mul_pos hk0 hsz; omega
+    unfold blockBase
+    rw [if_neg hne0]
     rcases applyEtag_cases (uploadBlock r cfg.szx ms k) ent.msg with ⟨h, _⟩ | ⟨_, hne, _⟩
     · exact h
     · exact absurd (by rw [f3, hetag]) hne
@@ -2101,15 +2147,15 @@ theorem responder_round (cfg : Cfg) (resp req : Msg) (exp now : Int) (rcv : Opti
     unfold wantsToBeReceived
     simp [h1, h2, h3, hreq]
   have hsend : sendBT resp.code = .b2 := by simp [sendBT, hresp]
-  have hoff : sendOff .b2 cfg.szx j (sizeN cfg.szx) = j * sizeN cfg.szx := by
+  have hoff : sendOffWith block1SkipsSent .b2 cfg.szx j (sizeN cfg.szx) = j * sizeN cfg.szx := by
     have : (BT.b2 == BT.b1) = false := by decide
-    simp [sendOff, this]
+    simp [sendOffWith, this]
   have hpaylen : ((resp.body.drop (j * sizeN cfg.szx)).take (sizeN cfg.szx)).length = min (sizeN cfg.szx) (resp.body.length - j * sizeN cfg.szx) := by
     simp
   have hcs : createSending resp cfg.szx cfg.maxSize (blkVal cfg.szx j true) =
       some (downloadBlock resp cfg.szx cfg.maxSize j,
         decide (j * sizeN cfg.szx + ((resp.body.drop (j * sizeN cfg.szx)).take (sizeN cfg.szx)).length ≠ resp.body.length)) := by
-    unfold createSending
+    unfold createSending createSendingWith
     rw [decode_blkVal true hs7 hnum]
     simp only [getSzx_eq_min, Nat.min_self, hsend, hbuf, hoff]
     unfold createSendingAt
@@ -2164,7 +2210,7 @@ theorem requester_round (cfg : Cfg) (resp req : Msg) (sexp : Int) (ent : Entry) 
     (hnsig : isSignal resp.code = false) (hncont : resp.code ≠ codeContinue) (hb1 : resp.block1 = none)
     (htok : resp.tok ≠ 0) (hlive : now ≤ ent.validUntil) (hslive : now ≤ sexp)
     (hheld : ent.msg.body = resp.body.take (j * sizeN cfg.szx)) (hj : j * sizeN cfg.szx ≤ resp.body.length)
-    (hetag : ent.msg.etag = resp.etag) (hnum : j + 1 < 2 ^ 20) :
+    (hetag : ent.msg.etag = resp.etag) (hnum : j + 1 < 2 ^ 20) (hj0 : 0 < j) :
     ((j + 1) * sizeN cfg.szx < resp.body.length →
       handleS cfg ⟨some ⟨req, sexp⟩, some ent⟩ now (downloadBlock resp cfg.szx ms j) app =
         (⟨some ⟨req, sexp⟩, some ⟨{ ent.msg with body := resp.body.take ((j + 1) * sizeN cfg.szx) }, ent.validUntil⟩⟩,
@@ -2207,7 +2253,11 @@ theorem requester_round (cfg : Cfg) (resp req : Msg) (sexp : Int) (ent : Entry) 
   have hfit : fitSZX (downloadBlock resp cfg.szx ms j) .b2 cfg.szx = cfg.szx := by
     rw [fitSZX_some (v := blkVal cfg.szx j _) cfg.szx rfl hdecode]; omega
   have hlv : live (some ent) now = some ent := live_fresh _ _ hlive
-  have hap : applyEtag (downloadBlock resp cfg.szx ms j) ent.msg = ent.msg := by
+  have hap : blockBase (downloadBlock resp cfg.szx ms j) ent.msg (j * sizeN cfg.szx) = ent.msg := by
+    have hne0 : ¬ (block0Restarts = true ∧ j * sizeN cfg.szx = 0) := by
+      intro h; have := Nat.mul_pos hj0 hsz; omega
+    unfold blockBase
+    rw [if_neg hne0]
     rcases applyEtag_cases (downloadBlock resp cfg.szx ms j) ent.msg with ⟨h, _⟩ | ⟨_, hne, _⟩
     · exact h
     · exact absurd (by rw [f3, hetag]) hne
@@ -2276,5 +2326,20 @@ theorem requester_round (cfg : Cfg) (resp req : Msg) (sexp : Int) (ent : Entry) 
     · exact ⟨by rw [hfin.1]; exact hpr.1, by simp only []; rw [hfin.2]; exact hpr.2⟩
     · exact ⟨by rw [hfin.1]; exact hpr.1, by simp only []; rw [hfin.2]; exact hpr.2⟩
 
+
+
+/-! ### (F10e) re-use of a token: the first block of the new body restarts the transfer -/
+
+/-- whatever is held (`c0` is arbitrary): after a first block that is a slice of the body now supplied under the token,
+    exactly that block is held, with the new body's options, code and ETag -/
+theorem absorb_first_block_ok {R : Reg} (hfix : block0Restarts = true) {tok : Nat} {r c0 : Msg} {s : Supplied}
+    (htok : c0.tok = tok) (hr : Matches R tok r s) (hs : SliceAt s.body 0 r.body) :
+    (absorb r c0 0).2 = true ∧ Matches R tok (absorb r c0 0).1 s ∧ (absorb r c0 0).1.body = r.body ∧
+    (absorb r c0 0).1.body <+: s.body ∧ (r.body.length = s.body.length → (absorb r c0 0).1.body = s.body) := by
+  obtain ⟨h1, h2⟩ := absorb_first_block hfix r c0
+  rw [h1, h2]
+  obtain ⟨m1, m2, m3, _⟩ := hr
+  have hp : r.body <+: s.body := by simpa using hs.2
+  exact ⟨rfl, ⟨m1, m2, m3, htok⟩, rfl, hp, fun hl => slice_zero_complete hs hl⟩
 
 end CoapVerif.Lemmas.Blockwise
